@@ -344,3 +344,88 @@ def static_obligations(run):
         run.trusted.append("Print Assumptions %s: %s" % (n, a))
     run.trusted.insert(0, "Coq 8.16.1 kernel incl. vm_compute (no native_compute)")
     return ass
+
+
+def _short(x, n=300):
+    if isinstance(x, dict):
+        return {k: _short(v, n) for k, v in x.items()}
+    if isinstance(x, list):
+        return [_short(v, n) for v in x[:20]]
+    if isinstance(x, str) and len(x) > n:
+        return x[:n] + "...(%d chars)" % len(x)
+    return x
+
+
+def judge_stream(run, name, imports, casetype, inputs, results, term_fn, clauses, trivial_tags,
+                 rule, key_fn=None, judge="judge_all", shard=400, dist_extra=None, vkey=None):
+    """Evaluate the Coq judge over (input, implementation result) pairs.
+
+    severity 2 (monitor fails on the implementation's observation) -> violation with the case;
+    severity 1 (model and implementation differ, monitor holds) -> broken correspondence only.
+    Returns (flagged, tags)."""
+    terms = [term_fn(i, r) for i, r in zip(inputs, results)]
+    flagged, tags, errors, files = coq_eval(run.rundir, name, imports, casetype, terms, judge, shard=shard)
+    run.checker_cmds.append("coqc %s_k.v (vm_compute of %s over the implementation's observations)" % (name, judge))
+    run.oblige("%s: case evaluation inside Coq completed" % name, not errors, "\n".join(errors))
+    mism = [f for f in flagged if f[1] == 1]
+    viol = [f for f in flagged if f[1] == 2]
+    for idx, sev, cl in viol[:20]:
+        k = (vkey(inputs[idx], results[idx], cl) if vkey else None) or "%s-clause-%d" % (name, cl)
+        run.violation(k, clauses.get(cl, "clause %d" % cl),
+                      {"stream": name, "input": _short(inputs[idx], 6000), "impl": _short(results[idx], 6000), "clause": cl})
+    run.oblige("correspondence %s: model = implementation and monitor holds on %d cases" % (name, len(inputs)),
+               not mism and not viol and not errors,
+               json.dumps([{"clause": clauses.get(c, c), "input": _short(inputs[i], 1500), "impl": _short(results[i], 1500)}
+                           for i, s, c in (viol + mism)[:5]], default=str)[:8000])
+    seen, nontriv, dist = set(), 0, {}
+    for i, t in zip(inputs, tags):
+        dist[str(t)] = dist.get(str(t), 0) + 1
+        key = key_fn(i) if key_fn else json.dumps(i, sort_keys=True, default=str)
+        if key in seen:
+            continue
+        seen.add(key)
+        if t is not None and t not in trivial_tags:
+            nontriv += 1
+    d = {"model_branch_tags": dist}
+    d.update(dist_extra or {})
+    n = len(inputs)
+    samples = [{"input": _short(inputs[j]), "impl": _short(results[j])} for j in sorted({0, n // 2, n - 1}) if 0 <= j < n]
+    run.stream(name, n, nontriv, rule, samples, d)
+    return flagged, tags
+
+
+def replay_generic(run, path, runner):
+    """runner(case) -> (flagged:list, text) re-runs one stored case on the current tree."""
+    body = json.load(open(path))
+    print("replaying %s: %s" % (path, body.get("what")))
+    if body.get("kind") == "obligation":
+        print("this replay names a broken obligation / correspondence stream, not an input:")
+        print(json.dumps(body.get("broken"), indent=1)[:4000])
+        print("re-run:  bin/check %s --tier %s" % (run.pid, body.get("tier", "quick")))
+        shutil.rmtree(run.rundir, ignore_errors=True)
+        return 1
+    build_coq()
+    flagged, text = runner(body["case"])
+    print(text)
+    print("verdict now:", "STILL FAILS" if flagged else "holds")
+    shutil.rmtree(run.rundir, ignore_errors=True)
+    return 1 if flagged else 0
+
+
+def coq_query(rundir, name, imports, exprs, timeout=600):
+    """Evaluate expressions of type [list bytes] inside Coq; returns list of lists of bytes."""
+    v = os.path.join(rundir, name + ".v")
+    with open(v, "w") as f:
+        f.write(imports + "\nFrom CRS Require Import Judge.Pack Judge.Common.\nOpen Scope string_scope.\n")
+        for k, e in enumerate(exprs):
+            f.write("Definition Q%d := Eval vm_compute in map hexs (%s).\nPrint Q%d.\n" % (k, e, k))
+    rc, o, e = coqc(os.path.basename(v), rundir, timeout=timeout)
+    if rc:
+        raise Infra("coq_query failed: " + (o + e)[-2000:])
+    res = []
+    for k in range(len(exprs)):
+        m = re.search(r"Q%d\s*=\s*(.*?)\s*:\s*list string" % k, o, re.S)
+        if not m:
+            raise Infra("coq_query: cannot parse answer %d: %s" % (k, o[-500:]))
+        res.append([bytes.fromhex(h) for h in re.findall(r'"([0-9a-f]*)"', m.group(1))])
+    return res
